@@ -186,3 +186,55 @@ func Verif_C05_Pool() {
 	}
 	rt.Assert(n == p.created, "after all users finished every live resource is back in the pool")
 }
+
+//verif:entry tier=quick,thorough cover=allexpired,noneexpired,regot
+//verif:doc Pool capacity after expiry: limit 1..3, k <= limit resources obtained and put back (symbolic idle times in between), clock advanced by a symbolic amount against a symbolic maxAge, then `limit` Gets: none may block, every expired resource is destroyed exactly once and uncounted.
+func Verif_C05_PoolExpiry() {
+	limit := rt.Choose("limit", 3) + 1
+	k := rt.Choose("k", limit) + 1
+	created, destroyed := 0, 0
+	dead := map[int]int{}
+	maxAge := rt.Int("maxAge_ns", 0, 1<<40)
+	p := NewPool(limit, func() any {
+		created++
+		return &c05Res{id: created}
+	}, func(x any) {
+		destroyed++
+		dead[x.(*c05Res).id]++
+	}, WithMaxAge(time.Duration(maxAge)))
+	var held []any
+	for i := 0; i < k; i++ {
+		held = append(held, p.Get())
+	}
+	for _, x := range held {
+		p.Put(x)
+		rt.Advance(rt.Int("gap_ns", 0, 1<<40))
+	}
+	rt.Advance(rt.Int("idle_ns", 0, 1<<41))
+	got := 0
+	seen := map[int]bool{}
+	go func() {
+		for i := 0; i < limit; i++ {
+			r := p.Get().(*c05Res)
+			rt.Assert(!seen[r.id], "the same resource is never handed out twice while held")
+			rt.Assert(dead[r.id] == 0, "a destroyed resource is never handed out")
+			seen[r.id] = true
+			got++
+		}
+	}()
+	rt.WaitIdle()
+	rt.Assert(got == limit, "with nothing held, `limit` Gets succeed without blocking: no capacity leaked by expiry")
+	rt.Assert(p.created == created-destroyed && p.created <= limit, "created counter = live resources <= limit")
+	for _, n := range dead {
+		rt.Assert(n == 1, "an expired resource is destroyed exactly once")
+	}
+	if destroyed == k {
+		rt.Cover("allexpired")
+	}
+	if destroyed == 0 {
+		rt.Cover("noneexpired")
+	}
+	if created == k {
+		rt.Cover("regot")
+	}
+}
